@@ -91,7 +91,11 @@ func sweepMethods(tablePath string, full24 bool) error {
 					fl |= 0x10
 				}
 				e.AssumeSEP(fl)
-				e.SetBase(0x8000)
+				if calls%2 == 1 { // the program counter's bank must not leak into any operand
+					e.SetBase(0x707C00)
+				} else {
+					e.SetBase(0x8000)
+				}
 				var args []reflect.Value
 				want := []int{row.Op}
 				switch row.Kind {
